@@ -1174,7 +1174,7 @@ def sec_eqhash(ctx, rng, case):
     for grp in dup_groups:
         for u, w in itertools.combinations(grp, 2):
             same = _same(u, w)
-            ctx.check(same, "rebuilt-equal", "C11:same-arguments-not-equal:" + _cls(u),
+            ctx.check(same, "rebuilt-equal", _classify([] if same else _sdiff(u, w), [], "C11:same-arguments-not-equal:" + _cls(u), False),
                       "two values built from the same arguments (or a deepcopy) are not equal", gen=name, a=repr(u)[:300])
             hu, hw = _hashable(u), _hashable(w)
             if same and hu[0] and hw[0]:
@@ -1262,7 +1262,9 @@ def _copy_history(ctx, x, gen):
             continue
         ok = _same(c, x)
         d = _sdiff(x, c) if ok else []
-        ctx.check(ok and type(c) is type(x), "copy-eq", "C11:%s-not-equal:%s" % (how, _cls(_pair_culprit(x, c)[0])), "%s(x) != x" % how, **wit)
+        ctx.check(ok and type(c) is type(x), "copy-eq",
+                  _classify([] if ok else _sdiff(x, c), [], "C11:%s-not-equal:%s" % (how, _cls(_pair_culprit(x, c)[0])), False),
+                  "%s(x) != x" % how, **wit)
         if ok:
             ctx.check(not d, "copy-structure", "C11:%s-loses-field:%s" % (how, _fields(d)),
                       lambda: "%s(x) compares equal but differs in stored fields: %s" % (how, _diff_txt(d)), **wit)
@@ -1278,7 +1280,9 @@ def _copy_history(ctx, x, gen):
     p = pickle.loads(blob)
     ok = _same(p, x)
     d = _sdiff(x, p) if ok else []
-    ctx.check(ok and type(p) is type(x), "pickle-eq", "C11:pickle-not-equal:" + _cls(_pair_culprit(x, p)[0]), "pickle round trip differs", **wit)
+    ctx.check(ok and type(p) is type(x), "pickle-eq",
+              _classify([] if ok else _sdiff(x, p), [], "C11:pickle-not-equal:" + _cls(_pair_culprit(x, p)[0]), False),
+              "pickle round trip differs", **wit)
     if ok:
         ctx.check(not d, "pickle-structure", "C11:pickle-loses-field:%s" % _fields(d),
                   lambda: "pickle round trip compares equal but differs in stored fields: %s" % _diff_txt(d), **wit)
